@@ -16,7 +16,7 @@
 (*  (commands applied to the state machine, in order), sfut (_slot_futures),  *)
 (*  sacks (_slot_acks), pend (_pending_commands), p1 (_phase1_responses:      *)
 (*  ballot number -> sequence of promised logs), ackers (corrected design     *)
-(*  only: slot -> set of distinct acceptors of the current ballot), hold       *)
+(*  only: slot -> [b: ballot the acks were collected under, s: acceptors]), hold *)
 (*  (corrected design only: Accepts received ahead of a gap).                 *)
 (*                                                                            *)
 (* Deviations (Dev); each names what the code does, the other branch is the   *)
@@ -53,6 +53,7 @@ CONSTANTS N, Dev,
 
 Nodes == 1..N
 NoFut == 0
+NoAcks == [b |-> <<0, 0>>, s |-> {}]
 
 BLess(a, b) == a[1] < b[1] \/ (a[1] = b[1] /\ a[2] < b[2])
 Put(f, k, v) == [x \in (DOMAIN f) \cup {k} |-> IF x = k THEN v ELSE f[x]]
@@ -99,7 +100,7 @@ Advance(ns, k) ==
 Assign(ns, n, cmd, fut) ==
     LET slot == Len(ns.log) + 1 IN
     [ns EXCEPT !.log = Append(@, Entry(ns.cur[1], ns.cur[2], cmd)), !.sfut = Put(@, slot, fut),
-               !.sacks = Put(@, slot, 1), !.ackers = Put(@, slot, {n})]
+               !.sacks = Put(@, slot, 1), !.ackers = Put(@, slot, [b |-> ns.cur, s |-> {n}])]
 
 RECURSIVE AssignAll(_, _, _, _)
 AssignAll(ns, n, pend, i) ==
@@ -142,7 +143,7 @@ BecomeLeader(ns, n, bn) ==
                                !.sfut = [s \in keepF |-> ns.sfut[s]],
                                !.sacks = [s \in (DOMAIN ns.sacks \cup (ns.commit + 1)..ml) |->
                                             IF s > ns.commit THEN 1 ELSE ns.sacks[s]],
-                               !.ackers = [s \in (ns.commit + 1)..ml |-> {n}]]
+                               !.ackers = [s \in (ns.commit + 1)..ml |-> [b |-> ns.cur, s |-> {n}]]]
         ns1 == [ns0 EXCEPT !.isL = TRUE, !.leader = n]
         ns2 == [AssignAll(ns1, n, ns1.pend, 1) EXCEPT !.pend = <<>>]
     IN R(ns2, Heartbeats(ns2, n) \o ReplicateFrom(ns2, n, ns2.commit + 1), <<>>, TRUE)
@@ -225,7 +226,9 @@ HAccept(ns, n, m) ==
 
 RECURSIVE QuorumPrefix(_, _)
 QuorumPrefix(ns, k) ==
-    IF k + 1 <= Len(ns.log) /\ Cardinality(Get(ns.ackers, k + 1, {})) >= Q2 THEN QuorumPrefix(ns, k + 1) ELSE k
+    IF k + 1 <= Len(ns.log) /\ Get(ns.ackers, k + 1, NoAcks).b = ns.cur
+                            /\ Cardinality(Get(ns.ackers, k + 1, NoAcks).s) >= Q2
+    THEN QuorumPrefix(ns, k + 1) ELSE k
 
 HAccepted(ns, n, m) ==
     IF "slot_acks_ignore_ballot" \in Dev
@@ -234,9 +237,12 @@ HAccepted(ns, n, m) ==
          IN IF c >= Q2 /\ m.slot > ns.commit
             THEN LET a == Advance(ns1, m.slot) IN R(a.ns, <<>>, a.res, FALSE)
             ELSE Noop(ns1)
-    ELSE IF ~(ns.isL /\ ns.cur = <<m.bn, n>> /\ m.slot \in DOMAIN ns.ackers) THEN Noop(ns)
-    ELSE LET s2 == ns.ackers[m.slot] \cup {m.src}
-             ns1 == [ns EXCEPT !.ackers = Put(@, m.slot, s2), !.sacks = Put(@, m.slot, Cardinality(s2))]
+    ELSE IF ~(ns.isL /\ ns.cur = <<m.bn, n>> /\ m.slot >= 1 /\ m.slot <= Len(ns.log)) THEN Noop(ns)
+    ELSE LET old == Get(ns.ackers, m.slot, NoAcks)
+             \* acks collected under an older ballot do not count: start again from the leader itself
+             s2 == (IF old.b = ns.cur THEN old.s ELSE {n}) \cup {m.src}
+             ns1 == [ns EXCEPT !.ackers = Put(@, m.slot, [b |-> ns.cur, s |-> s2]),
+                               !.sacks = Put(@, m.slot, Cardinality(s2))]
              a == Advance(ns1, QuorumPrefix(ns1, ns1.commit))
          IN R(a.ns, <<>>, a.res, FALSE)
 
